@@ -300,6 +300,27 @@ def bounded(ck, big=False):
             if not same:
                 fails.append({"obligation": "bounded.batch_sizes", "clause": "a batch of any size (1, one partition, partition boundaries) with a cloud model == [run(x, cloud) for x in batch], bit for bit",
                               "input": {"events": m_, "detector_altitude": 33.0, "cloud_model": "70 km for events 0 and 100, 6 km where lat > 0, none elsewhere", "seed": ck.seed}, "observed": obs})
+        # per-event arrays that do not share one element type: every event reaches the kernel with the element types it has one at a time
+        m_ = 7
+        mixes = {"float32 altitudes": lambda x: [x[0], x[1].astype(np.float32), x[2], x[3], x[4]],
+                 "float32 angles and altitudes": lambda x: [x[0].astype(np.float32), x[1].astype(np.float32), x[2], x[3], x[4]],
+                 "integer energies, float32 angles and altitudes": lambda x: [x[0].astype(np.float32), x[1].astype(np.float32), np.arange(1, len(x[2]) + 1), x[3], x[4]]}
+        for mname, mk_ in mixes.items():
+            nev += m_
+            sub = mk_([x[:m_].copy() for x in b])
+            try:
+                want = [CphotAng(33.0).run(*[x[j] for x in sub], None) for j in range(m_)]
+                wd, wa = np.asarray([r[0] for r in want], dtype=float), np.array([r[1] for r in want], dtype=float)
+                with dask.config.set(scheduler="synchronous"):
+                    d, a = k33(*[x.copy() for x in sub], None)
+                d, a = np.asarray(d, dtype=float), np.asarray(a, dtype=float)
+                same = d.shape == wd.shape and np.array_equal(d, wd, equal_nan=True) and np.array_equal(a, wa, equal_nan=True)
+                obs = {"batch": d.tolist()[:3], "one-at-a-time": wd.tolist()[:3]}
+            except Exception as ex:
+                same, obs = False, "raised %r" % ex
+            if not same:
+                fails.append({"obligation": "bounded.batch_sizes", "clause": "a batch whose per-event arrays have different element types == [run(x) for x in zip(arrays)], value for value",
+                              "input": {"events": m_, "detector_altitude": 33.0, "element types": mname, "seed": ck.seed}, "observed": obs})
         fails.extend(processes_design(ck, b))
         nev += 9
         # a single failing event surfaces as an error of the batch call
